@@ -313,7 +313,59 @@ def oracle_scaling():
     return None
 
 
+def oracle_operands():
+    """(a) operands are values: using a symbolic-coefficient function in several later operations does not change it;
+    (b) a coefficient vector that is a raw Variable with REPEATED exponent rows behaves like the consolidated function wherever it stands"""
+    import sageopt as so
+    import sageopt.coniclifts as cl
+    from sageopt.symbolic.signomials import Signomial
+    y = so.standard_sig_monomials(2)
+    f = 2 * y[0] + 3 * y[1] ** 2 + 5
+    gamma = cl.Variable(name='op_gamma')
+    L = f - gamma
+    A1 = L + 1
+    B1 = L + 2
+    C1 = 2.5 * L
+    D1 = L - 4
+    gamma.value = 0.5
+    pts = [np.array([0.0, 0.0]), np.array([1.0, -1.0]), np.array([-2.0, 0.5])]
+
+    def val(g, x):
+        cs = np.array([float(ci.value) if hasattr(ci, 'value') else float(ci) for ci in g.c])
+        return float(np.sum(cs * np.exp(np.asarray(g.alpha, dtype=float) @ x)))
+    for x in pts:
+        fx = float(f(x))
+        for name, g, want in (('L = f - gamma', L, fx - 0.5), ('L + 1', A1, fx + 0.5), ('L + 2', B1, fx + 1.5), ('2.5 * L', C1, 2.5 * (fx - 0.5)),
+                              ('L - 4', D1, fx - 4.5)):
+            got = val(g, x)
+            if abs(got - want) > 1e-9 * (1 + abs(want)):
+                return ('after A = L + 1, B = L + 2, C = 2.5*L, D = L - 4 with L = f - gamma (gamma = 0.5): %s evaluates to %r at %s, expected %r'
+                        % (name, got, x.tolist(), want))
+    lam = cl.Variable(shape=(3,), name='op_lam')
+    s_ = Signomial(np.array([[1.0, 0.0], [1.0, 0.0], [0.0, 1.0]]), lam)        # rows 0 and 1 coincide
+    g_ = y[0] * y[1] - 1
+    combos = (('f + s', lambda: f + s_), ('s + f', lambda: s_ + f), ('f - s', lambda: f - s_), ('Signomial.sum([f, s, g])', lambda: Signomial.sum([f, s_, g_])),
+              ('Signomial.sum([s, f])', lambda: Signomial.sum([s_, f])), ('g * s', lambda: g_ * s_))
+    lam.value = np.array([1.0, 2.0, -3.0])
+    s_num = Signomial(np.array([[1.0, 0.0], [0.0, 1.0]]), np.array([3.0, -3.0]))
+    want_fns = {'f + s': f + s_num, 's + f': s_num + f, 'f - s': f - s_num, 'Signomial.sum([f, s, g])': Signomial.sum([f, s_num, g_]),
+                'Signomial.sum([s, f])': Signomial.sum([s_num, f]), 'g * s': g_ * s_num}
+    for name, mk in combos:
+        h = mk()
+        for x in pts:
+            got, want = val(h, x), float(want_fns[name](x))
+            if abs(got - want) > 1e-9 * (1 + abs(want)):
+                return ('s has a raw Variable as coefficient vector and a repeated exponent row: after assigning the Variable, %s evaluates to '
+                        '%r at %s but the numeric computation gives %r' % (name, got, x.tolist(), want))
+    return None
+
+
 def run(ctx):
+    why = oracle_operands()
+    ctx.evaluations += 11
+    ctx.suites['operands'] = {'cases': 11, 'failure': why}
+    if why:
+        ctx.problem('oracle', 'property fails on the implementation: ' + why, inputs={'suite': 'operands'}, failing_input_found=True)
     why = oracle_scaling()
     ctx.evaluations += 3
     ctx.suites['scaling'] = {'cases': 3, 'failure': why}
